@@ -85,6 +85,25 @@ func Quiesce(e *engine.EngineFacade) bool {
 	}
 }
 
+// Retire flushes everything (immutable tables, then the active table) and
+// removes all log files except the current one through WAL.ManageRetention.
+// Afterwards reads can only be served from SSTables.
+func Retire(e *engine.EngineFacade) error {
+	Quiesce(e)
+	for i := 0; i < 2; i++ {
+		if err := e.FlushImMemTables(); err != nil {
+			return err
+		}
+		Quiesce(e)
+	}
+	w := e.GetWAL()
+	if w == nil {
+		return errors.New("no WAL")
+	}
+	_, err := w.ManageRetention(wal.WALRetentionConfig{MaxFileCount: 1})
+	return err
+}
+
 // IsNotFound classifies an error of a read as "key absent".
 func IsNotFound(err error) bool {
 	return err != nil && strings.Contains(err.Error(), "not found")
@@ -298,6 +317,13 @@ func (r *Runner) Do(i int) (*Mismatch, error) {
 			r.MaintErrors++
 		}
 		r.LastMaint = "crange"
+	case "retire":
+		// make every write durable in SSTables, then drop the flushed log files
+		// with the repository's own retention code
+		if err := Retire(r.Eng); err != nil {
+			r.MaintErrors++
+		}
+		r.LastMaint = "retire"
 	case "reopen":
 		if !r.NoQuiesce {
 			Quiesce(r.Eng)
